@@ -24,7 +24,7 @@ package execution
 //@   assigns nothing
 //@   ensures[C08] err-is-unsupported: result2 != nil ==> result2.isNS && result0 == nil
 //@   ensures[C09,C16] plain: istype(t.VectorSelector, *parser.VectorSelector) ==> result2 == nil && ref(result0) == t.VectorSelector.data && len(result1) == 0
-//@   ensures ok-nonnil: result2 == nil && t.VectorSelector.data != 0 ==> result0 != nil
+//@   ensures ok-nonnil: result2 == nil ==> result0 != nil
 
 // newShardedVectorSelector: one vector selector per shard i of numShards = max(1, GOMAXPROCS/2);
 // every shard gets the same selector, options and offset (C02, C11).
@@ -36,7 +36,9 @@ package execution
 //@   loop 0 invariant shards: 0 <= i && i <= numShards && numShards >= 1 && len(operators) == i
 
 //@ func newVectorBinaryOperator
-//@   requires e != nil && selectorPool != nil && optsOK(opts)
+//@   requires e != nil && selectorPool != nil && !isnil(selectorPool.selectors) && optsOK(opts)
+//@   requires e.LHS.Type() != parser.ValueTypeScalar && e.RHS.Type() != parser.ValueTypeScalar
+//@   requires[C16] hints.Func == "" && len(hints.Grouping) == 0 && !hints.By
 //@   ensures[C08] err-is-unsupported-or-remote: result1 != nil ==> result1.isNS || result1.isNI || result1.fromRemote
 //@   ensures ok-nonnil: result1 == nil ==> result0 != nil
 //@   at execution.newOperator line "e.LHS" assert[C05] lhs-first: $expr == e.LHS && $opts == opts && $storage == selectorPool
@@ -48,7 +50,8 @@ package execution
 // newScalarBinaryOperator: the vector side is passed as `next`, the scalar side as `scalar`; the
 // side flag says where the scalar stood in the expression (C05).
 //@ func newScalarBinaryOperator
-//@   requires e != nil && selectorPool != nil && optsOK(opts)
+//@   requires e != nil && selectorPool != nil && !isnil(selectorPool.selectors) && optsOK(opts)
+//@   requires[C16] hints.Func == "" && len(hints.Grouping) == 0 && !hints.By
 //@   ensures[C08] err-is-unsupported-or-remote: result1 != nil ==> result1.isNS || result1.isNI || result1.fromRemote
 //@   ensures ok-nonnil: result1 == nil ==> result0 != nil
 //@   at execution.newOperator assert[C16] binary-resets-hints: $hints.Func == "" && len($hints.Grouping) == 0 && !$hints.By &&
@@ -63,3 +66,86 @@ package execution
 //@         $next == callres("execution.newOperator", 1, 0) && $scalar == callres("execution.newOperator", 2, 0))
 //@   at execution.newOperator #1 assert[C05] lhs-first: $expr == e.LHS && $opts == opts && $storage == selectorPool
 //@   at execution.newOperator #2 assert[C05] rhs-second: $expr == e.RHS && $opts == opts && $storage == selectorPool
+
+// newOperator: physical plan construction. C08: every failure is classified as unsupported /
+// not implemented (or comes from a remote engine). C16: the hints handed to each sub-expression and
+// to each storage select follow the reference engine's path rules (function = nearest enclosing
+// call/aggregation, cut at a binary expression; grouping only from the direct parent). C01..C07:
+// each operator is built from the node's own parameters.
+//@ pred sameHintsRange(h, g) = h.Start == g.Start && h.End == g.End && h.Step == g.Step
+//@ func newOperator
+//@   requires storage != nil && !isnil(storage.selectors) && optsOK(opts)
+//@   ensures[C08] err-is-unsupported-or-remote: result1 != nil ==> result1.isNS || result1.isNI || result1.fromRemote
+//@   ensures ok-nonnil: result1 == nil ==> result0 != nil
+//@   ensures[C08] unknown-node-is-unsupported: expr == nil ==> result1 != nil && result1.isNS
+//@   ensures[C08] string-literal-not-implemented: istype(expr, *parser.StringLiteral) ==> result1 != nil && result1.isNI
+//@   ensures[C08] subquery-unsupported: istype(expr, *parser.SubqueryExpr) ==> result1 != nil && result1.isNS
+//@   ensures[C08] toplevel-matrix-unsupported: istype(expr, *parser.MatrixSelector) ==> result1 != nil && result1.isNS
+//@   ensures[C08] variadic-not-implemented: istype(expr, *parser.Call) && cast(expr, *parser.Call).Func.Variadic != 0 &&
+//@       cast(expr, *parser.Call).Func.Name != "histogram_quantile" && has(function.Funcs, cast(expr, *parser.Call).Func.Name) ==> result1 != nil && result1.isNI
+//@   at execution.newOperator assert same-pool: $storage == storage
+//@   at execution.newOperator assert[C06,C07] same-grid-unless-pinned: !istype(expr, *parser.StepInvariantExpr) ==> $opts == opts
+//@   at execution.newOperator assert[C06,C07] pinned-child-single-step: istype(expr, *parser.StepInvariantExpr) ==>
+//@       $opts.Start == opts.Start && $opts.End == opts.Start && $opts.Step == opts.Step &&
+//@       $opts.LookbackDelta == opts.LookbackDelta && $opts.StepsBatch == opts.StepsBatch
+//@   at execution.newOperator assert[C16] hints-range-kept: sameHintsRange($hints, hints)
+//@   at execution.newOperator assert[C16] call-sets-func-hint: istype(expr, *parser.Call) ==>
+//@       $hints.Func == cast(expr, *parser.Call).Func.Name && len($hints.Grouping) == 0 && !$hints.By
+//@   at execution.newOperator assert[C16] aggregation-sets-func-and-grouping-hints: istype(expr, *parser.AggregateExpr) ==>
+//@       $hints.Func == cast(expr, *parser.AggregateExpr).Op.String() &&
+//@       sameslice($hints.Grouping, cast(expr, *parser.AggregateExpr).Grouping) && $hints.By == !cast(expr, *parser.AggregateExpr).Without
+//@   at execution.newOperator assert[C16] paren-unary-pinned-keep-func-drop-grouping:
+//@       istype(expr, *parser.ParenExpr) || istype(expr, *parser.UnaryExpr) || istype(expr, *parser.StepInvariantExpr) ==>
+//@       $hints.Func == hints.Func && len($hints.Grouping) == 0 && !$hints.By
+//@   at execution.newOperator assert[C01] children-in-order: (istype(expr, *parser.ParenExpr) ==> $expr == cast(expr, *parser.ParenExpr).Expr) &&
+//@       (istype(expr, *parser.UnaryExpr) ==> $expr == cast(expr, *parser.UnaryExpr).Expr) &&
+//@       (istype(expr, *parser.StepInvariantExpr) ==> $expr == cast(expr, *parser.StepInvariantExpr).Expr)
+//@   at execution.newOperator #1 assert[C04] aggregation-operand-first: istype(expr, *parser.AggregateExpr) ==> $expr == cast(expr, *parser.AggregateExpr).Expr
+//@   at execution.newOperator #2 assert[C04] aggregation-param-second: istype(expr, *parser.AggregateExpr) ==> $expr == cast(expr, *parser.AggregateExpr).Param
+//@   at engstore.(*SelectorPool).GetSelector assert[C02,C16] select-args: $mint == start && $maxt == end && $step == opts.Step.Milliseconds() &&
+//@       sameslice($matchers, e.LabelMatchers) && $hints.Start == start && $hints.End == end && $hints.Step == hints.Step &&
+//@       $hints.Func == hints.Func && $hints.By == hints.By && sameslice($hints.Grouping, hints.Grouping) && $hints.Range == hints.Range
+//@   at engstore.(*SelectorPool).GetFilteredSelector line "e.LabelMatchers, e.Filters" assert[C02,C09,C16] filtered-select-args: $mint == start && $maxt == end &&
+//@       $step == opts.Step.Milliseconds() && sameslice($matchers, e.LabelMatchers) && sameslice($filters, e.Filters) &&
+//@       $hints.Start == start && $hints.End == end && $hints.Step == hints.Step &&
+//@       $hints.Func == hints.Func && $hints.By == hints.By && sameslice($hints.Grouping, hints.Grouping) && $hints.Range == hints.Range
+//@   at engstore.(*SelectorPool).GetFilteredSelector line "vs.LabelMatchers, filters" assert[C03,C09,C16] range-select-args: $mint == start && $maxt == end &&
+//@       $step == opts.Step.Milliseconds() && sameslice($matchers, vs.LabelMatchers) && sameslice($filters, filters) &&
+//@       $hints.Start == start && $hints.End == end && $hints.Step == old(hints.Step) && $hints.Range == t.Range.Milliseconds() &&
+//@       $hints.Func == e.Func.Name && !$hints.By && len($hints.Grouping) == 0
+//@   at execution.getTimeRangesForVectorSelector line "(e, opts, 0)" assert[C02,C16] instant-window: $n == e && $opts == opts && $evalRange == 0
+//@   at execution.getTimeRangesForVectorSelector line "(e.VectorSelector, opts, 0)" assert[C02,C16] filtered-window: $n == e.VectorSelector && $opts == opts && $evalRange == 0
+//@   at execution.getTimeRangesForVectorSelector line "(vs, opts, t.Range)" assert[C03,C16] range-window: $n == vs && $opts == opts && $evalRange == t.Range
+//@   at execution.newShardedVectorSelector assert[C02] selector-offset: $opts == opts && $offset == e.Offset
+//@   at scan.NewMatrixSelector assert[C03,C11] range-selector-args: $selectRange == t.Range && $offset == vs.Offset && $opts == opts &&
+//@       $shard == i && $numShard == numShards && 0 <= i && i < numShards && ref($call) == ref(call) && $funcExpr == e && $selector == filter
+//@   at scan.NewNumberLiteralSelector assert[C06] literal-args: $opts == opts
+//@   at function.NewFunctionOperator assert[C06] function-args: $funcExpr == e && ref($call) == ref(call) && $opts == opts && sameslice($nextOps, nextOperators)
+//@   at function.NewFunctionCall assert[C03,C06,C08] function-looked-up-by-name: $f == e.Func
+//@   at aggregate.NewHashAggregate assert[C04] aggregation-args: $aggregation == e.Op && $by == !e.Without && sameslice($labels, e.Grouping) &&
+//@       e.Op != parser.TOPK && e.Op != parser.BOTTOMK && $next == callres("execution.newOperator", 1, 0) &&
+//@       (e.Param != nil ==> $paramOp == callres("execution.newOperator", 2, 0)) && (e.Param == nil ==> $paramOp == nil)
+//@   at aggregate.NewKHashAggregate assert[C04] k-aggregation-args: $aggregation == e.Op && $by == !e.Without && sameslice($labels, e.Grouping) &&
+//@       (e.Op == parser.TOPK || e.Op == parser.BOTTOMK) && $next == callres("execution.newOperator", 1, 0) &&
+//@       (e.Param != nil ==> $paramOp == callres("execution.newOperator", 2, 0))
+//@   at unary.NewUnaryNegation assert[C06] negation-only-for-minus: e.Op == parser.SUB && $next == callres("execution.newOperator", 1, 0)
+//@   at step_invariant.NewStepInvariantOperator assert[C06,C07] outer-grid: $opts == opts && $expr == e.Expr && $next == callres("execution.newOperator", 1, 0)
+//@   at api.RemoteEngine.NewRangeQuery assert[C10] remote-window: $qs == e.Query && $start == opts.Start && $end == opts.End && $interval == opts.Step
+//@   at remote.NewExecution assert[C10] remote-grid: $opts == opts
+//@   at execution.newVectorBinaryOperator assert[C05] vector-binary: $e == e && $opts == opts && $selectorPool == storage &&
+//@       e.LHS.Type() != parser.ValueTypeScalar && e.RHS.Type() != parser.ValueTypeScalar
+//@   at execution.newScalarBinaryOperator assert[C05] scalar-binary: $e == e && $opts == opts && $selectorPool == storage &&
+//@       (e.LHS.Type() == parser.ValueTypeScalar || e.RHS.Type() == parser.ValueTypeScalar)
+//@   loop 1 invariant hints-kept: hints.Func == e.Func.Name && len(hints.Grouping) == 0 && !hints.By && sameHintsRange(hints, old(hints)) && hints.Range == old(hints.Range)
+//@   loop 2 invariant shards: 0 <= i && i <= numShards && numShards >= 1
+
+// New: the per-query selector pool and options; hints start with the query window and step and
+// no function / grouping (C16); nothing is read from the storage (C08, C17).
+//@ func New
+//@   requires step >= 0 && lookbackDelta >= 0
+//@   ensures[C08] err-is-unsupported-or-remote: result1 != nil ==> result1.isNS || result1.isNI || result1.fromRemote
+//@   at execution.newOperator assert[C01,C02,C07] options: $expr == expr && $opts.Start == mint && $opts.End == maxt && $opts.Step == step &&
+//@       $opts.LookbackDelta == lookbackDelta && $opts.StepsBatch == 10 && fresh($opts) && fresh($storage)
+//@   at execution.newOperator assert[C16] initial-hints: $hints.Start == mint.UnixMilli() && $hints.End == maxt.UnixMilli() &&
+//@       $hints.Step == step.Milliseconds() && $hints.Func == "" && len($hints.Grouping) == 0 && !$hints.By && $hints.Range == 0
+//@   at engstore.NewSelectorPool assert[C12,C20] pool-over-queryable: $queryable == queryable
